@@ -29,6 +29,7 @@ type Result struct {
 
 // Worker is the worker-side loop.
 func Worker(handle func(in []byte) any) {
+	limitMemory()
 	r := bufio.NewReaderSize(os.Stdin, 1<<20)
 	w := bufio.NewWriter(os.Stdout)
 	for {
